@@ -504,7 +504,9 @@ impl<'a> DocGen<'a> {
                 if p.empty_lists && self.rng.chance(1, 10) {
                     // no item at all, only the white space between the tags
                     items.clear();
-                    items.push(Node::Raw("\n".into()));
+                    if self.rng.chance(1, 2) {
+                        items.push(Node::Raw("\n".into()));
+                    }
                 }
                 if k == "ul" && p.stray_in_list && self.rng.chance(1, 6) {
                     let stray = match self.rng.below(if p.links { 5 } else { 4 }) {
